@@ -71,6 +71,13 @@ theorem indexSafe_of_no_for (inv : Inventory) (r : Rule) (hf : r.fterm = none) (
   · intro t _
     simp [instances, forVal, hf, instancesOf, hv]
 
+/-- … so for rule lists without `for` the full statement holds outright. -/
+theorem indexed_eq_plain_without_for (w : World) (rules : Rules) (inv : Inventory)
+    (h : ∀ p ∈ rules, p.2.fterm = none ∧ p.2.fkvar = "" ∧ p.2.fvvar = "") :
+    (indexed w rules inv).Equiv (plain w rules inv) :=
+  indexed_eq_plain_partial w rules inv fun p hp =>
+    indexSafe_of_no_for inv p.2 (h p hp).1 (h p hp).2.1 (h p hp).2.2
+
 def cexWorld : World :=
   { globals := fun _ => none, other := fun _ _ _ _ => none, field := fun _ _ => none, nav := fun _ _ => .empty }
 
